@@ -116,7 +116,7 @@ async def main_async(ctx, sq, scens, rnd):
     out = []
     batch = []
     n = 0
-    for rep in range(2 if ctx.thorough else 1):
+    for rep in range(10 if ctx.thorough else 1):
         for sc in scens:
             n += 1
             big = (rnd.random() < (0.25 if ctx.thorough else 0.04)) and sc['par']['units'] <= 2
